@@ -253,7 +253,25 @@ def h_countries(ctx, start_iso="2025-03-29T18:00:00"):
     ctx.require(n >= 10, "the ready-made countries were enumerated", str(n))
 
 
-HARNESSES = {"zone": h_zone, "system": h_system, "countries": h_countries}
+def h_zone_edit(ctx, tz1, tz2, start_iso, n=4):
+    """the country's time zone is edited on a computed system: the usage pattern's UTC series is placed with the new
+    zone's offsets (also when the series spans a transition of the old or the new zone)"""
+    start = datetime.fromisoformat(start_iso)
+    spec = M.T1(n, tz=tz1, start=start)
+    env = M.Env(ctx, symbolic=traffic_syms(spec))
+    objs = M.build(spec, env)
+    V.observe_system(ctx, objs)
+    objs["fr"].timezone = SourceObject(pytz.timezone(tz2))
+    up = objs["up"]
+    got = {V.utc_key(t).tz_localize(None).to_pydatetime(): v for t, v in
+           zip(up.utc_hourly_usage_journey_starts.value.index, up.utc_hourly_usage_journey_starts.value["value"].values._data)}
+    xs = [env.get(f"up.starts[{i}]", None) for i in range(n)]
+    check_placement(ctx, pytz.timezone(tz2), start, n, xs, got, f"after editing the zone {tz1} -> {tz2}")
+    occ = {V.utc_key(t).tz_localize(None).to_pydatetime(): v for t, v in V.phys(objs["job"].hourly_occurrences_across_usage_patterns)[1].items()}
+    ctx.require(set(occ) == set(got), f"after editing the zone {tz1} -> {tz2}: the job's occurrences follow the new UTC stamps")
+
+
+HARNESSES = {"zone": h_zone, "system": h_system, "countries": h_countries, "zone_edit": h_zone_edit}
 QUICK_ZONES = ["Europe/Paris", "Europe/Berlin", "Europe/Helsinki", "Europe/Vienna", "Europe/Warsaw", "Europe/Oslo",
                "Europe/Budapest", "Europe/London", "Europe/Brussels", "Europe/Rome", "Europe/Bucharest",
                "Asia/Kuala_Lumpur", "Africa/Casablanca", "Africa/Tunis", "Africa/Algiers", "Africa/Dakar",
@@ -274,6 +292,9 @@ def plan(tier, seed):
                          ("America/New_York", "Asia/Kolkata", "2025-11-02T00:00:00"),
                          ("Europe/London", "Australia/Lord_Howe", "2025-10-05T00:00:00")):
         p.append(("system", dict(tz1=tz1, tz2=tz2, start_iso=st)))
+    for tz1, tz2, st in (("Europe/Paris", "Asia/Kolkata", "2025-03-30T00:00:00"), ("America/New_York", "Europe/London", "2025-03-09T00:00:00"),
+                         ("Asia/Tokyo", "Europe/Paris", "2025-10-26T00:00:00"), ("Europe/Paris", "America/Sao_Paulo", "2025-06-10T00:00:00")):
+        p.append(("zone_edit", dict(tz1=tz1, tz2=tz2, start_iso=st)))
     p.append(("countries", dict(start_iso="2025-03-29T18:00:00")))
     p.append(("countries", dict(start_iso="2025-10-25T20:00:00")))
     return p
